@@ -34,7 +34,8 @@ type world struct {
 	wire    map[int][]byte // the event as its sender put it on the wire
 	servers []*server      // 1..n (index 0 unused)
 	keyRing gmsl.JSONVerifier
-	carolAt int // carol's homeserver (3 with three servers, else 2)
+	atJoin  map[int]*server // what a server held when it entered the room (server 1: after the creation prefix)
+	carolAt int             // carol's homeserver (3 with three servers, else 2)
 	mode    string
 	// diagnostics for the nontrivial class
 	resolutions int
@@ -42,7 +43,7 @@ type world struct {
 
 func newWorld(ver string, n int, byz []int, mode string) *world {
 	w := &world{ver: gmsl.RoomVersion(ver), n: n, room: "!room:hs1", ids: map[int]string{}, byID: map[string]int{},
-		wire: map[int][]byte{}, keyRing: newKeyRing(), carolAt: 2, mode: mode}
+		wire: map[int][]byte{}, keyRing: newKeyRing(), carolAt: 2, mode: mode, atJoin: map[int]*server{}}
 	w.impl = gmsl.MustGetRoomVersion(w.ver)
 	if n >= 3 {
 		w.carolAt = 3
@@ -196,4 +197,31 @@ func (w *world) reals(ns []int) []string {
 	}
 	sort.Strings(out)
 	return out
+}
+
+// clone: a world holding what this one holds (servers included); events are shared, they are never modified
+func (w *world) clone() *world {
+	c := &world{ver: w.ver, impl: w.impl, n: w.n, room: w.room, ids: make(map[int]string, len(w.ids)+8), byID: make(map[string]int, len(w.byID)+8),
+		wire: make(map[int][]byte, len(w.wire)+8), keyRing: w.keyRing, carolAt: w.carolAt, mode: w.mode, atJoin: map[int]*server{}}
+	for i, s := range w.atJoin {
+		c.atJoin[i] = s.clone()
+		c.atJoin[i].w = c
+	}
+	for k, v := range w.ids {
+		c.ids[k] = v
+	}
+	for k, v := range w.byID {
+		c.byID[k] = v
+	}
+	for k, v := range w.wire {
+		c.wire[k] = v
+	}
+	c.servers = make([]*server, len(w.servers))
+	for i, s := range w.servers {
+		if s != nil {
+			c.servers[i] = s.clone()
+			c.servers[i].w = c
+		}
+	}
+	return c
 }
